@@ -62,7 +62,8 @@ def patch_bases(rng):
 
 
 def check(run):
-    rng = random.Random(run.seed)
+    # deterministic on purpose (see c18.py): bases and samples come from a fixed stream, not from VERIF_SEED
+    rng = random.Random(1717)
     # the patch machine with truncated streams: success is reported only after EOF (model-checked in MC_ZiPatch as OkIffEof)
     run.model_check("mc/MC_ZiPatch.tla", "mc/MC_ZiPatch.cfg", workers=12)
     bases = []
@@ -106,6 +107,15 @@ def check(run):
     for i, t in enumerate([b"<", b">", b"<>", b"\r\n<\r\n", b"a<", b"\xff\xfe<x>\r\n", b"\r\n<C>\r\n\tv\r\n", b"\r\n<C>\r\nk\r\n\x00", b"\x00", b"<\xc3>",
                            b"\r\n<C>\r\nk\tv", b"k\tv\r\n", b"<" * 1000, b"\t" * 1000]):
         extra.append(faults.line(n, tb, {"k": "text", "i": i}, t))
+    # every line of up to 4 characters over the structural alphabet of the config grammar, alone and after a valid category
+    import itertools
+    k = 100
+    for ln in range(1, 5):
+        for chars in itertools.product(b"<>a\t ", repeat=ln):
+            t = bytes(chars)
+            extra.append(faults.line(n, tb, {"k": "text", "i": k}, t + b"\r\n"))
+            extra.append(faults.line(n, tb, {"k": "text", "i": k + 1}, b"<C>\r\nk\tv\r\n" + t + b"\r\nk2\tv2\r\n"))
+            k += 2
     for entry, texts in (("exl", [b"", b"EXLT", b"EXLT,", b"EXLT,x", b",", b",,,,", b"a,99999999999", b"\xff,1", b"EXLT,2\n#,\n,5\n"]),
                          ("patchlist.boot", [b"", b"\r\n", b"\r\n" * 5, b"\r\n" * 8, b"X-Patch-Length: ", b"X-Patch-Length: \r\n", b"a\r\nb\r\nc\r\nd\r\ne\r\nf\r\ng\r\nh\r\n",
                                              b"1\r\n2\r\n3\r\n4\r\n5\r\nx\ty\r\n7\r\n8\r\n", b"1\r\n2\r\n3\r\n4\r\n5\r\n\t\t\t\t\t\r\n7\r\n8\r\n"]),
